@@ -3,13 +3,17 @@ package world
 import (
 	"context"
 	"fmt"
+	"reflect"
 	"sort"
 	"strings"
+	"sync"
 	"time"
 
+	"github.com/go-logr/logr"
 	appsv1 "k8s.io/api/apps/v1"
 	corev1 "k8s.io/api/core/v1"
 	storagev1 "k8s.io/api/storage/v1"
+	apierrors "k8s.io/apimachinery/pkg/api/errors"
 	"k8s.io/apimachinery/pkg/api/resource"
 	metav1 "k8s.io/apimachinery/pkg/apis/meta/v1"
 	"k8s.io/apimachinery/pkg/runtime/serializer"
@@ -20,6 +24,7 @@ import (
 	"sigs.k8s.io/controller-runtime/pkg/client"
 	"sigs.k8s.io/controller-runtime/pkg/client/fake"
 	"sigs.k8s.io/controller-runtime/pkg/client/interceptor"
+	crlog "sigs.k8s.io/controller-runtime/pkg/log"
 
 	_ "sigs.k8s.io/karpenter/pkg/apis"
 	v1 "sigs.k8s.io/karpenter/pkg/apis/v1"
@@ -49,12 +54,112 @@ type World struct {
 	Scn     *Scenario
 	ITs     map[string]*cloudprovider.InstanceType
 	uidN    int
+	faults  *listFaults
+}
+
+// listFaults injects the scenario's ListFaults: while armed (only during World.Schedule) it counts the Lists per kind and
+// fails the Nth one once.
+type listFaults struct {
+	mu     sync.Mutex
+	armed  bool
+	faults []ListFault
+	counts map[string]int
+	// Fired records the faults that were actually injected ("Kind#N")
+	Fired []string
+	// errLogs: messages logged at error level
+	errLogs []string
+}
+
+// ListKind names the kind a List call is about: the list type's name without its "List" suffix.
+func ListKind(list client.ObjectList) string {
+	t := reflect.TypeOf(list)
+	for t.Kind() == reflect.Pointer {
+		t = t.Elem()
+	}
+	return strings.TrimSuffix(t.Name(), "List")
+}
+
+func (f *listFaults) onList(list client.ObjectList) error {
+	if f == nil {
+		return nil
+	}
+	f.mu.Lock()
+	defer f.mu.Unlock()
+	if !f.armed {
+		return nil
+	}
+	kind := ListKind(list)
+	f.counts[kind]++
+	for _, lf := range f.faults {
+		if lf.Kind == kind && lf.Nth == f.counts[kind] {
+			f.Fired = append(f.Fired, fmt.Sprintf("%s#%d", kind, lf.Nth))
+			return apierrors.NewServiceUnavailable(fmt.Sprintf("verif: injected failure of List %s #%d", kind, lf.Nth))
+		}
+	}
+	return nil
+}
+
+func (f *listFaults) arm(on bool) {
+	if f == nil {
+		return
+	}
+	f.mu.Lock()
+	f.armed = on
+	f.mu.Unlock()
+}
+
+// errorLog is a logr sink that only remembers the MESSAGES of error-level log lines (what the code under test says it
+// swallowed); installed in the context of worlds with injected API faults.
+type errorLog struct {
+	mu   *sync.Mutex
+	msgs *[]string
+}
+
+func (l errorLog) Init(logr.RuntimeInfo)          {}
+func (l errorLog) Enabled(int) bool               { return false }
+func (l errorLog) Info(int, string, ...any)       {}
+func (l errorLog) WithValues(...any) logr.LogSink { return l }
+func (l errorLog) WithName(string) logr.LogSink   { return l }
+func (l errorLog) Error(_ error, msg string, _ ...any) {
+	l.mu.Lock()
+	defer l.mu.Unlock()
+	for _, m := range *l.msgs {
+		if m == msg {
+			return
+		}
+	}
+	*l.msgs = append(*l.msgs, msg)
+}
+
+// ErrorLogs lists the distinct messages the code logged at error level during the passes so far (sorted; only recorded for
+// scenarios with injected API faults).
+func (w *World) ErrorLogs() []string {
+	if w.faults == nil {
+		return nil
+	}
+	w.faults.mu.Lock()
+	defer w.faults.mu.Unlock()
+	out := append([]string(nil), w.faults.errLogs...)
+	sort.Strings(out)
+	return out
+}
+
+// FiredFaults lists the injected faults that fired during the passes so far ("Kind#N").
+func (w *World) FiredFaults() []string {
+	if w.faults == nil {
+		return nil
+	}
+	w.faults.mu.Lock()
+	defer w.faults.mu.Unlock()
+	return append([]string(nil), w.faults.Fired...)
 }
 
 func q(milli int64) resource.Quantity { return *resource.NewMilliQuantity(milli, resource.DecimalSI) }
 func qMi(mi int64) resource.Quantity  { return *resource.NewQuantity(mi*1024*1024, resource.BinarySI) }
 
-func NewClient(objs ...client.Object) client.Client {
+func NewClient(objs ...client.Object) client.Client { return newClient(nil, objs...) }
+
+func newClient(lf *listFaults, objs ...client.Object) client.Client {
 	// a plain tracker: the default field-managed tracker rebuilds a REST mapper on every Create (~16x slower)
 	tracker := clienttesting.NewObjectTracker(scheme.Scheme, serializer.NewCodecFactory(scheme.Scheme).UniversalDecoder())
 	return fake.NewClientBuilder().WithScheme(scheme.Scheme).WithObjectTracker(tracker).
@@ -65,6 +170,11 @@ func NewClient(objs ...client.Object) client.Client {
 				key.Namespace = ""
 			}
 			return c.Get(ctx, key, obj, opts...)
+		}, List: func(ctx context.Context, c client.WithWatch, list client.ObjectList, opts ...client.ListOption) error {
+			if err := lf.onList(list); err != nil {
+				return err
+			}
+			return c.List(ctx, list, opts...)
 		}}).
 		WithStatusSubresource(&v1.NodeClaim{}, &v1.NodePool{}).
 		WithIndex(&corev1.Pod{}, "spec.nodeName", func(o client.Object) []string { return []string{o.(*corev1.Pod).Spec.NodeName} }).
@@ -266,27 +376,7 @@ func (w *World) BuildPod(p Pod, nodeName string, seq int) *corev1.Pod {
 		}
 	}
 	for _, s := range p.Spreads {
-		c := corev1.TopologySpreadConstraint{TopologyKey: s.TopologyKey, MaxSkew: s.MaxSkew, MinDomains: s.MinDomains,
-			LabelSelector: &metav1.LabelSelector{MatchLabels: s.MatchLabels, MatchExpressions: toLSR(s.MatchExprs)}, WhenUnsatisfiable: corev1.ScheduleAnyway,
-			MatchLabelKeys: append([]string(nil), s.MatchLabelKeys...)}
-		if s.DoNotSchedule {
-			c.WhenUnsatisfiable = corev1.DoNotSchedule
-		}
-		if s.NodeAffinityHonor != nil {
-			pol := corev1.NodeInclusionPolicyIgnore
-			if *s.NodeAffinityHonor {
-				pol = corev1.NodeInclusionPolicyHonor
-			}
-			c.NodeAffinityPolicy = &pol
-		}
-		if s.NodeTaintsHonor != nil {
-			pol := corev1.NodeInclusionPolicyIgnore
-			if *s.NodeTaintsHonor {
-				pol = corev1.NodeInclusionPolicyHonor
-			}
-			c.NodeTaintsPolicy = &pol
-		}
-		pod.Spec.TopologySpreadConstraints = append(pod.Spec.TopologySpreadConstraints, c)
+		pod.Spec.TopologySpreadConstraints = append(pod.Spec.TopologySpreadConstraints, BuildSpread(s, true))
 	}
 	if nodeName == "" {
 		pod.Status.Phase = corev1.PodPending
@@ -295,6 +385,9 @@ func (w *World) BuildPod(p Pod, nodeName string, seq int) *corev1.Pod {
 		pod.Status.Phase = corev1.PodRunning
 		pod.Status.Conditions = []corev1.PodCondition{{Type: corev1.PodScheduled, Status: corev1.ConditionTrue}}
 	}
+	if p.Owner != "" && !p.Daemon {
+		pod.OwnerReferences = []metav1.OwnerReference{{APIVersion: "apps/v1", Kind: "ReplicaSet", Name: p.Owner, UID: replicaSetUID(p.NS(), p.Owner), Controller: ptr(true), BlockOwnerDeletion: ptr(true)}}
+	}
 	if p.Daemon {
 		pod.OwnerReferences = []metav1.OwnerReference{{APIVersion: "apps/v1", Kind: "DaemonSet", Name: "ds-" + p.Name, UID: types.UID("ds-" + p.Name), Controller: ptr(true), BlockOwnerDeletion: ptr(true)}}
 	}
@@ -302,6 +395,35 @@ func (w *World) BuildPod(p Pod, nodeName string, seq int) *corev1.Pod {
 }
 
 func ptr[T any](v T) *T { return &v }
+
+func replicaSetUID(ns, name string) types.UID { return types.UID("rs-" + ns + "-" + name) }
+
+// BuildSpread converts a spread constraint description; withSelector=false leaves the label selector unset (cluster defaults).
+func BuildSpread(s Spread, withSelector bool) corev1.TopologySpreadConstraint {
+	c := corev1.TopologySpreadConstraint{TopologyKey: s.TopologyKey, MaxSkew: s.MaxSkew, MinDomains: s.MinDomains, WhenUnsatisfiable: corev1.ScheduleAnyway}
+	if withSelector {
+		c.LabelSelector = &metav1.LabelSelector{MatchLabels: s.MatchLabels, MatchExpressions: toLSR(s.MatchExprs)}
+		c.MatchLabelKeys = append([]string(nil), s.MatchLabelKeys...)
+	}
+	if s.DoNotSchedule {
+		c.WhenUnsatisfiable = corev1.DoNotSchedule
+	}
+	if s.NodeAffinityHonor != nil {
+		pol := corev1.NodeInclusionPolicyIgnore
+		if *s.NodeAffinityHonor {
+			pol = corev1.NodeInclusionPolicyHonor
+		}
+		c.NodeAffinityPolicy = &pol
+	}
+	if s.NodeTaintsHonor != nil {
+		pol := corev1.NodeInclusionPolicyIgnore
+		if *s.NodeTaintsHonor {
+			pol = corev1.NodeInclusionPolicyHonor
+		}
+		c.NodeTaintsPolicy = &pol
+	}
+	return c
+}
 
 // BuildNodePool converts a NodePool description.
 func BuildNodePool(np NodePool) *v1.NodePool {
@@ -356,6 +478,17 @@ func Build(s *Scenario) (*World, error) {
 	}
 	o.CPURequests = int64(par * 1000)
 	o.FeatureGates.ReservedCapacity = s.ReservedCapacity
+	if len(s.DefaultSpreads) > 0 {
+		// --scheduler-config: cluster-level default topology spread constraints (no selector: deduced per pod)
+		cfg := &options.SchedulerConfiguration{PodTopologySpread: &options.PodTopologySpreadConfig{}}
+		for _, d := range s.DefaultSpreads {
+			cfg.PodTopologySpread.DefaultConstraints = append(cfg.PodTopologySpread.DefaultConstraints, BuildSpread(d, false))
+		}
+		if err := cfg.Validate(); err != nil {
+			return nil, err
+		}
+		o.SchedulerConfig = cfg
+	}
 	w.Ctx = options.ToContext(context.Background(), o)
 	w.Clock = clock.NewFakeClock(T0)
 	w.CP = fakecp.NewCloudProvider()
@@ -364,7 +497,13 @@ func Build(s *Scenario) (*World, error) {
 		w.ITs[it.Name] = b
 		w.CP.InstanceTypes = append(w.CP.InstanceTypes, b)
 	}
-	w.Client = NewClient()
+	if len(s.ListFaults) > 0 {
+		w.faults = &listFaults{faults: s.ListFaults, counts: map[string]int{}}
+	}
+	if w.faults != nil {
+		w.Ctx = crlog.IntoContext(w.Ctx, logr.New(errorLog{mu: &w.faults.mu, msgs: &w.faults.errLogs}))
+	}
+	w.Client = newClient(w.faults)
 	w.Cluster = state.NewCluster(w.Clock, w.Client, w.CP)
 	w.Prov = provisioning.NewProvisioner(w.Client, test.NewEventRecorder(), w.CP, w.Cluster, w.Clock, nil, virtualpods.NewVirtualPodCache(w.Client))
 
@@ -554,6 +693,28 @@ func (w *World) addNamespacesAndStorage() error {
 			return err
 		}
 	}
+	for i, sv := range s.Services {
+		ns := sv.Namespace
+		if ns == "" {
+			ns = "default"
+		}
+		o := &corev1.Service{ObjectMeta: metav1.ObjectMeta{Name: sv.Name, Namespace: ns, UID: w.nextUID("svc"), CreationTimestamp: metav1.NewTime(T0.Add(-44 * time.Hour).Add(time.Duration(i) * time.Second))},
+			Spec: corev1.ServiceSpec{Selector: sv.Selector}}
+		if err := w.Client.Create(w.Ctx, o); err != nil {
+			return err
+		}
+	}
+	for i, rs := range s.ReplicaSets {
+		ns := rs.Namespace
+		if ns == "" {
+			ns = "default"
+		}
+		o := &appsv1.ReplicaSet{ObjectMeta: metav1.ObjectMeta{Name: rs.Name, Namespace: ns, UID: replicaSetUID(ns, rs.Name), CreationTimestamp: metav1.NewTime(T0.Add(-43 * time.Hour).Add(time.Duration(i) * time.Second))},
+			Spec: appsv1.ReplicaSetSpec{Selector: &metav1.LabelSelector{MatchLabels: rs.Selector.MatchLabels, MatchExpressions: toLSR(rs.Selector.MatchExprs)}}}
+		if err := w.Client.Create(w.Ctx, o); err != nil {
+			return err
+		}
+	}
 	return nil
 }
 
@@ -725,6 +886,10 @@ type Outcome struct {
 	Claims   []ClaimOut        `json:"claims"`
 	Errors   map[string]string `json:"errors"`
 	Err      string            `json:"err,omitempty"`
+	// Faults: the injected API faults that fired during the pass ("Kind#N")
+	Faults []string `json:"faults,omitempty"`
+	// ErrorLogs: the distinct messages logged at error level during the pass (scenarios with injected faults only)
+	ErrorLogs []string `json:"errorLogs,omitempty"`
 }
 
 func errClass(err error) string {
@@ -809,6 +974,9 @@ func Extract(res provsched.Results) Outcome {
 // Schedule runs one real scheduling pass (Provisioner.Schedule).
 func (w *World) Schedule() (provsched.Results, error) {
 	w.Cluster.SetSynced(true)
+	// the scenario's API faults only strike during the pass
+	w.faults.arm(true)
+	defer w.faults.arm(false)
 	return w.Prov.Schedule(w.Ctx)
 }
 
